@@ -47,7 +47,8 @@ TRUSTED = [
     "hand-written model coq/Determinism.v: every set-iteration / id()-dependent site is an input list in arbitrary order, "
     "Python's stable sorted(key=) is a stable insertion sort, str order is byte-wise order on UTF-8 (sleb), "
     "id assignment is `visit` over the labels a format's traversal reaches; sofa data arrays are visited after it by XMI "
-    "(those not found by identity, xmi_trav) and before it by JSON (save_pre), not at all by typecheck",
+    "(those not found by identity, xmi_trav) and before it by JSON (each once, and left out of the sorted part: save_pre), "
+    "not at all by typecheck",
     "PARTIAL: byte identity across processes, hash seeds and sinks (CPython hashing, lxml, json, file objects) is observed "
     "by the subprocess oracle on every run, not proved",
     "which structures a format reaches is computed by the harness (identity-based traversal adapted from harness/scen.py, "
@@ -524,10 +525,10 @@ def oracle(cassis, sc, obs):
     if sc["kind"] == "emit":
         return _oracle_emit(sc, obs)
     X, J, A = set(obs["X"]), set(obs["J"]), list(obs["A"])
-    # what each operation may give an id to / has to list: to_xmi the structures the traversal reaches and every byte array
-    # holding sofa data (once); to_json the arrays (in front of their sofas, once per sofa) and what its traversal reaches;
-    # typecheck only walks the traversal
-    want_of = {"xmi": sorted(X | set(A)), "json": sorted(A + sorted(J))}
+    # what each operation may give an id to / has to list: the structures its traversal reaches and every byte array holding
+    # sofa data, each exactly once (to_json: the arrays in front of the first sofa that refers to them); typecheck only walks
+    # the traversal
+    want_of = {"xmi": sorted(X | set(A)), "json": sorted(J | set(A))}
     arr_of_view = [v.get("array") for v in sc["cspec"]["views"]]
     prev = obs["ids0"]
     digests = {}
@@ -559,14 +560,15 @@ def oracle(cassis, sc, obs):
                 return "sofa data: step %d (%s) writes sofaArray references %s, the arrays have ids %s" % (k, op, st["sofa_arr"], want_arr)
             tail = st["doc_ids"]
             if op == "json":
-                head = []
+                head, first = [], set()
                 for vi, a in enumerate(arr_of_view):
-                    if a is not None:
+                    if a is not None and a not in first:
+                        first.add(a)
                         head.append(["fs", ids_now[a - 1]])
                     head.append(["sofa", vi + 1])
                 if st["head"] != head:
-                    return "order: step %d (json) starts with %s, expected per view the sofa data array and the sofa %s" % (k, st["head"], head)
-                tail = tail[len(A):]
+                    return "order: step %d (json) starts with %s, expected per view the sofa data array (once) and the sofa %s" % (k, st["head"], head)
+                tail = tail[len(first):]
             if tail != sorted(tail):
                 return "order: step %d (%s) lists structures in the order %s" % (k, op, st["doc_ids"][:12])
         if st["digest"] is not None:
@@ -611,14 +613,15 @@ def _oracle_emit(sc, obs):
     if obs["j_none_types"] is not None:
         return "types: JSON (NONE) carries a type system"
     by_lab = {o["o"]: o for o in sc["cspec"]["objs"]}
-    want_fs = []
+    want_fs, first = [], set()
     for vi, v in enumerate(sc["cspec"]["views"]):
-        if v.get("array") is not None:
+        if v.get("array") is not None and v["array"] not in first:
+            first.add(v["array"])
             want_fs.append(by_lab[v["array"]]["id"])
         want_fs.append(vi + 1)
-    want_fs += sorted(i for _l, i, _t in obs["found_j"])
+    want_fs += sorted(i for l, i, _t in obs["found_j"] if l not in first)
     if [i for i, _t in obs["j_fs"]] != want_fs or [i for i, _t in obs["j_none_fs"]] != want_fs:
-        return "order: JSON lists structures %s, expected sofas (each after its data array) then ids ascending %s" % ([i for i, _t in obs["j_fs"]][:12], want_fs[:12])
+        return "order: JSON lists structures %s, expected sofas (the first of an array after it) then the other ids ascending %s" % ([i for i, _t in obs["j_fs"]][:12], want_fs[:12])
     for (name, sid, members), (jn, js, jm) in zip(obs["views"], obs["j_views"]):
         if jn != name or js != sid or jm != sorted(members):
             return "members: JSON view %s has members %s, expected %s" % (name, jm, sorted(members))
@@ -808,7 +811,20 @@ def nontrivial(sc):
     return len(sc["cspec"]["objs"]) >= 3 and len(sc["tspec"]) >= 4
 
 
+def _inside(sc):
+    """ASSUMPTIONS: when something is left to number, every explicit id is below the id the generator hands out next."""
+    ids = [o.get("id") for o in sc["cspec"]["objs"]]
+    given = [i for i in ids if i is not None]
+    return len(given) == len(ids) or not given or max(given) < _expected_next(sc)
+
+
 def shrink_candidates(sc):
+    for c in _shrink_candidates(sc):
+        if _inside(c):
+            yield c
+
+
+def _shrink_candidates(sc):
     if sc["kind"] == "seq":
         ops = sc["ops"]
         for i in range(len(ops)):
@@ -868,7 +884,7 @@ MANIFEST = {
                   "is followed by a stable sort on a unique key (sort_unique for Z and string keys, emit_order_independent for XMI, "
                   "JSON, type-system XML); a save only adds generator-fresh, pairwise distinct ids to id-less structures, is "
                   "idempotent, and along every history of to_xmi/to_json/to_xml/select/select_all/typecheck all documents of one "
-                  "format are equal, each lists every byte array holding sofa data, and queries answer the same. The model is tied to /repo on every run by evaluating it in Coq on "
+                  "format are equal, each lists every byte array holding sofa data exactly once, and queries answer the same. The model is tied to /repo on every run by evaluating it in Coq on "
                   "the observed histories and emitted orders. Byte identity across processes with different PYTHONHASHSEED, across "
                   "string / str path / Path sinks and option combinations is observed by a subprocess oracle on every run, not proved.",
     "level_note": "Trusted: Coq kernel + vm_compute; hand-written model coq/Determinism.v; harness (own identity-based reachability, "
